@@ -467,12 +467,16 @@ def C11.check (s : Step) : List String :=
        (match Vamm.queryTwapPrice x s.env x.cfg.twapInterval, (preAt s).oracleTwap x.cfg.pricefeed x.cfg.twapInterval with
         | .ok tv, .ok to => chk (pf == trunc (((tv : Int) - to) * x.cfg.fundingPeriod) 86400) "premium-fraction-formula"
         | _, _ => ["funding-settled-without-readable-twaps"]) ++
-       (if payment > 0 then
-          let amt : Int := if bal s.pre ENGINE < payment then bal s.pre ENGINE else payment
-          chk (s.xfers == [(ENGINE, ifd s, amt.toNat)]) "funding-payment-to-insurance-fund"
+       -- native coins the caller chose to attach reach the vault first (one more transfer, a larger vault)
+       (let att : Nat := if s.pre.engine.cfg.native then s.funds.amount else 0
+        let pre : List (Nat × Nat × Nat) := if att == 0 then [] else [(s.sender, ENGINE, att)]
+        let vault : Int := bal s.pre ENGINE + (if s.sender == ENGINE then 0 else (att : Int))
+        if payment > 0 then
+          let amt : Int := if vault < payment then vault else payment
+          chk (s.xfers == pre ++ [(ENGINE, ifd s, amt.toNat)]) "funding-payment-to-insurance-fund"
         else if payment < 0 then
-          chk (s.xfers == [(ifd s, ENGINE, payment.natAbs)]) "funding-payment-from-insurance-fund"
-        else chk (s.xfers == []) "funding-moved-collateral-with-zero-payment")
+          chk (s.xfers == pre ++ [(ifd s, ENGINE, payment.natAbs)]) "funding-payment-from-insurance-fund"
+        else chk (s.xfers == pre) "funding-moved-collateral-with-zero-payment")
      | _, _ => ["payfunding-on-unknown-vamm"])
   | some (.openPosition v side margin lev _) =>
     let p := pos s.pre v s.sender
@@ -608,13 +612,13 @@ def C09.checkLive (s : Step) : List String :=
   | none => []
 
 /-- C16, second sentence: a trader is turned away by the one-action-per-block rule only if a liquidation
-    happened on that vAMM earlier in this block (observed history) and the trader's position was already
-    updated in this block -/
+    happened on that vAMM earlier in this block and the trader's stored position was updated by a trade of
+    its own earlier in this block (both from the observed history; the engine's block stamp is not consulted) -/
 def C16.checkLive (s : Step) : List String :=
   if s.ok || !(hasSub s.err "Only_one_action") then [] else
   match engineMsg s with
   | some (.openPosition v _ _ _ _) | some (.closePosition v _) =>
-    chk (s.liqsThisBlock.contains v && (pos s.pre v s.sender).block == s.env.height)
+    chk (s.liqsThisBlock.contains v && s.tradedThisBlock.contains v)
       "unrestricted-trader-refused-as-restricted"
   | _ => []
 
